@@ -81,6 +81,14 @@ def class_chain(c):
     py = getattr(_pybuiltins, name, None)
     if isinstance(py, type):
         return [k.__name__ for k in py.__mro__ if k is not object]
+    # an exception named by a contract (raises={"BadRequestKeyError": ...}): the repository's own hierarchy
+    try:
+        from .extract import ModuleInfo
+        k = ModuleInfo.get("werkzeug/exceptions.py").classes.get(name.split(".")[-1])
+        if isinstance(k, ClassInfo):
+            return class_chain(k)
+    except Exception:  # noqa: BLE001
+        pass
     return [name]
 
 
@@ -864,6 +872,7 @@ class Interp:
         return self.eval(sl, env)
 
     def ev_Call(self, node, env):
+        self._call_env = env      # the caller's scope at this call site (ghost-argument bindings are evaluated in it)
         # spec-mode special forms
         if isinstance(node.func, ast.Name):
             nm = node.func.id
@@ -974,6 +983,8 @@ class Interp:
 
     def ev_ListComp(self, node, env):
         sym = self._filter_comprehension(node, env)
+        if sym is None:
+            sym = self._map_comprehension(node, env)
         if sym is not None:
             return sym
         return VList(self.comprehension(node, env))
@@ -1034,7 +1045,59 @@ class Interp:
         return r
 
     def ev_GeneratorExp(self, node, env):
+        sym = self._map_comprehension(node, env)
+        if sym is not None:
+            return sym
         return VList(self.comprehension(node, env))
+
+    def _map_comprehension(self, node, env):
+        """(E(x) for x in <symbolic list>) / [E(x) for x in ...] without a filter, E a pure expression: the result
+        list is the array  lambda i. E(src[i])  of the same length.  The same expression over the same list
+        yields the same term (z3 lambda arrays), so code and specification meet syntactically."""
+        from .loops import iter_view
+        from .values import shape_of, flatten as _flatten
+        if len(node.generators) != 1:
+            return None
+        g = node.generators[0]
+        if g.is_async or g.ifs or not isinstance(g.target, ast.Name):
+            return None
+        itv = self.need(self.eval(g.iter, env))
+        try:
+            view = iter_view(self, itv, g.iter)
+        except Unsupported:
+            return None
+        if concrete_int(view.length) is not None or view.shape is None:
+            return None
+        i = z3.Int("i!map")
+        sp = self.sub(True)
+        e2 = Env(env)
+        e2.assign(g.target.id, view.get(i))
+        try:
+            val = sp.eval(node.elt, e2)
+        except Unsupported:
+            return None
+        shape = shape_of(val)
+        leaves = _flatten(val, shape)
+        # the mapped list: arrays NAMED after the defining expression (so that code and specification, which map the
+        # same expression over the same list, meet in the same term) with their defining axiom.  Plain SMT-LIB
+        # (z3's lambda arrays would do the same, but cvc5 cannot read them)
+        import hashlib
+        arrs = []
+        for k, l in enumerate(leaves):
+            h = hashlib.sha1(l.sexpr().encode()).hexdigest()[:12]
+            a = z3.Array(f"map!{h}", z3.IntSort(), l.sort())
+            arrs.append(a)
+            seen = self.ctx.__dict__.setdefault("_map_axioms", set())
+            if h not in seen:
+                seen.add(h)
+                ih = z3.Int(f"i!map!{h}")
+                QRANGES[ih.decl().name()] = (z3.IntVal(0), view.length)
+                self.ctx.assume(z3.ForAll([ih], z3.Implies(z3.And(ih >= 0, ih < view.length),
+                                                           z3.Select(a, ih) == z3.substitute(l, (i, ih)))),
+                                "map-comprehension:definition")
+        if view.consume:
+            view.consume(view.length)
+        return VList(None, shape=shape, arrs=arrs, length=view.length)
 
     def ev_SetComp(self, node, env):
         return VSet(items=self.comprehension(node, env))
